@@ -154,6 +154,7 @@ theorem srvQuery_of_ok (ws : List Selector.WTerm) (q : Selector.Query)
 theorem srvQueries_of_ok (wss : List (List Selector.WTerm)) (qs : Selector.Queries)
     (h : Selector.serverConvert wss = .ok qs) : srvQueries (wss.map (·.map wtermX)) = .ok qs := by
   unfold Selector.serverConvert at h
+  simp only [Gen.Selector.serverForwardsEveryQuery, if_true] at h
   induction wss generalizing qs with
   | nil =>
     simp only [Selector.Conv.mapM] at h
